@@ -167,6 +167,10 @@ def parse_spec(path):
                 elif k == "external_body":
                     f.attrs.append("#[verifier::external_body]")
                     f.nobody = False
+                elif k == "nobody":
+                    # body cannot even be type-checked by Verus: drop it (D7), contract is an assumption
+                    f.attrs.append("#[verifier::external_body]")
+                    f.nobody = True
                 else:
                     raise ExtractError("%s:%d unknown fn option %s" % (path, ln, o))
             sec = Section("fn", f.name, ln)
@@ -733,6 +737,15 @@ class Gen:
             self.items_check.append((qual, start, len(self.out), exp, "R8" if has_ens else None))
             self.fns.append({"qual": qual, "module": modpath, "start": start, "end": len(self.out), "auto": fs.auto if fs else [],
                              "tags": sorted(fn_tags), "src": "%s:%d" % (sf.rel, sf.line_of(b0)), "has_body": False, "clauses": clause_ids})
+            return
+        if fs and fs.nobody:
+            self.emit(indent + "{ unimplemented!() }  /* body dropped (D7): not expressible in Verus */" + G, ("ghost", None))
+            self.emit("//@item-end %s" % qual, ("glue",))
+            exp = expected_tokens(sf.text[b0:sig_b1], rewrites, True)
+            self.items_check.append((qual, start, len(self.out), exp, "R8" if has_ens else None))
+            self.assumptions.append("body dropped (D7): %s" % qual)
+            self.fns.append({"qual": qual, "module": modpath, "start": start, "end": len(self.out), "auto": [], "tags": sorted(fn_tags),
+                             "src": "%s:%d" % (sf.rel, sf.line_of(b0)), "has_body": True, "clauses": clause_ids, "external_body": True})
             return
         # body with injections -------------------------------------------------------------
         g_body_lo, g_body_hi = it.body
